@@ -101,6 +101,26 @@ impl Sweep {
             },
             embed: false,
         });
+        // the address lexers (URL with credentials, port, path, escapes; e-mail; host name) and the
+        // number/currency lexers: cursor arithmetic that ordinary prose alphabets never reach
+        fams.push(Family {
+            name: "G1/addresses".into(),
+            fes: fe_idx(&fes, |f| f.name == "plain" || f.name == "markdown"),
+            generator: Gen::Strings {
+                atoms: strs(&["http://", "a", ".", ":", "@", "/", "%41", "8", "?", " ", "é", "-", "co"]),
+                max_len: t.pick(4, 6),
+            },
+            embed: false,
+        });
+        fams.push(Family {
+            name: "G1/numbers-and-currency".into(),
+            fes: fe_idx(&fes, name_is("plain")),
+            generator: Gen::Strings {
+                atoms: strs(&["1", "0", ".", ",", "$", "€", "e", "-", "x", "st", "th", "%", " ", "F", "£", "s"]),
+                max_len: t.pick(4, 5),
+            },
+            embed: false,
+        });
         // tabs after block markers (pulldown-cmark expands them)
         fams.push(Family {
             name: "G1/markdown-tabs".into(),
@@ -161,6 +181,89 @@ impl Sweep {
             },
             embed: false,
         });
+        // every expression kind of the Typst translator (patterns, closures, calls whose arguments
+        // are partly unlintable, arrays, dictionaries, control flow), each with an ASCII and a
+        // multi-byte filling, and EVERY PREFIX of each (the file while it is being typed)
+        {
+            let constructs = [
+                "#let (a, b) = (1, 2)\nProse aftr it.",
+                "#let (a, (b, c)) = x",
+                "#let (a: b, ..rest) = (a: 1)",
+                "#let ((a)) = 1",
+                "#let f(x, y: 2, ..z) = [Some prose x]",
+                "#let f = (x, y) => [Some prose here]",
+                "#let g = x => x + 1",
+                "#f(1, name: [prose here], ..args)",
+                "#image(\"a.png\", alt: \"Alt text hre\")",
+                "#image(alt: \"Alt text hre\", \"a.png\")",
+                "#bibliography(title: [Refs here], \"a.bib\", style: \"ieee\")",
+                "#cite(<a>, supplement: [p. 7 prose], style: \"x\")",
+                "#raw(\"code hre\", theme: \"t\", lang: \"rs\")",
+                "#raw(theme: \"t\", \"code hre\")",
+                "#rgb(\"ff0000\") #regex(\"a+\") #plugin(\"p.wasm\")",
+                "#datetime.today().display(\"[year] prose\")",
+                "#figure(caption: [A captoin])[body prose]",
+                "#(1, 2, \"three wrods\")",
+                "#(a: 1, \"k\": [val prose], ..d)",
+                "#if x [yes prose] else [no prose]",
+                "#if x { [a] } else if y { [b] } else { [c prose] }",
+                "#while x < 3 [loop prose]",
+                "#for x in (1, 2) [item prose]",
+                "#for (k, v) in d [pair prose]",
+                "#context [ctx prose]",
+                "line one \\ line two",
+                "#let x = context { here() }",
+                "#show heading: it => [pre #it.body]",
+                "#show \"foo\": \"bar\"",
+                "#set text(lang: \"en\")",
+                "#import \"a.typ\": b, c",
+                "#include \"b.typ\"",
+                "$ x^2 $ math prose $y$",
+                "#{ let y = [inner prose]; y }",
+                "#[content block prose]",
+                "#x.at(0).field",
+                "#f[trailing prose][two]",
+                "#link(\"http://a.co\")[link text]",
+                "= Heading prose\n== Sub",
+                "- list item\n+ enum item\n/ Term: description prose",
+                "*strong* _emph_ `raw` ```rs\nfn x```",
+                "#\"string prose\"",
+                "#none #auto #true #1.5em #2pt #50%",
+                "#(x + y * 2 - z / 3)",
+                "#(not a and b or c in d)",
+                "#(a == b, a != b, a <= b)",
+                "#(x = 5) #(x += 1)",
+                "#f(x)(y)[z]",
+                "@ref <label> prose",
+                "#let f(x) = { return x }",
+                "#for x in y { break; continue }",
+                "'quote' \"dquote\" it's",
+                "a -- b --- c ... ~d",
+                "#sym.arrow text",
+                "https://a.co raw link",
+                "\\u{e9} \\# \\$ escaped",
+                "#f(..a, b) #f(a: 1, a: 2)",
+                "#let (..a) = b\n#let (_, b) = c",
+                "// comment prose\n/* block */ after",
+                "#table(columns: 2, [a prose], [b])",
+            ];
+            let mut list: std::collections::BTreeSet<String> = Default::default();
+            for c in constructs {
+                for variant in [c.to_string(), c.replace("prose", "prosé 😀").replace("\"a", "\"é")] {
+                    let cs: Vec<char> = variant.chars().collect();
+                    for k in 0..=cs.len() {
+                        list.insert(cs[..k].iter().collect());
+                    }
+                    list.insert(format!("Intro txt. {variant} And more."));
+                }
+            }
+            fams.push(Family {
+                name: "T/typst-constructs-all-prefixes".into(),
+                fes: fe_idx(&fes, |f| f.class == Class::Typst),
+                generator: Gen::List(Arc::new(list.into_iter().collect())),
+                embed: false,
+            });
+        }
         fams.push(Family {
             name: "G1/lhaskell".into(),
             fes: fe_idx(&fes, |f| f.class == Class::Lhs),
@@ -519,7 +622,19 @@ impl Sweep {
             tk |= 1 << kind_ord(&t.kind);
         }
         out.outcome(h64(&(class as u8, tk)));
-        for (sig, detail) in problems {
+        for (mut sig, detail) in problems {
+            // cause class of finding F25: in a Typst source WITH SYNTAX ERRORS typst-syntax's typed
+            // accessors fall back to a sibling node, so one source region is translated twice. Only
+            // that shape (the offending token overlaps a token emitted earlier, and the source is
+            // erroneous) gets the class suffix; anything else keeps its plain signature.
+            if class == Class::Typst && (sig.contains(":duplicate-span") || sig.contains(":disorder")) {
+                let list = if sig.starts_with("parse:") { &raw } else { &doc_toks };
+                let i = detail["token"].as_u64().unwrap_or(0) as usize;
+                let twice = list.get(i).map(|t| list[..i].iter().any(|p| p.span.start < p.span.end && p.span.start.max(t.span.start) < p.span.end.min(t.span.end))).unwrap_or(false);
+                if twice && typst_syntax::parse(text).erroneous() {
+                    sig.push_str(":region-translated-twice-in-incomplete-syntax");
+                }
+            }
             out.violation(
                 0,
                 Violation {
@@ -922,6 +1037,16 @@ pub fn check_tokens(
                             }
                         }
                     }
+                }
+            }
+            TokenKind::Url | TokenKind::EmailAddress | TokenKind::Hostname => {
+                // an address is one unbroken run of characters; an e-mail address has its '@'
+                if txt.iter().any(|c| c.is_whitespace()) {
+                    problems.push((format!("{stage}:shape-{}-has-whitespace", kind_name(&t.kind)), json!({"token": i, "text": c2s(txt)})));
+                } else if matches!(t.kind, TokenKind::EmailAddress) && !txt.contains(&'@') {
+                    problems.push((format!("{stage}:shape-email-without-at"), json!({"token": i, "text": c2s(txt)})));
+                } else if matches!(t.kind, TokenKind::Url) && !txt.contains(&':') {
+                    problems.push((format!("{stage}:shape-url-without-scheme"), json!({"token": i, "text": c2s(txt)})));
                 }
             }
             _ => {}
